@@ -270,7 +270,19 @@ fn run_indicator(c: &IConst, st: &mut Stats) -> CaseResult {
 			// rounding (a computed series over a flat stretch) it is decided by the noise, so two histories
 			// that differ in their rounding residues can converge at different speeds
 			let vidya = cj.to_string().contains("vidya");
-			let sig = if vidya { format!("C08:vidya-on-rounding-noise:{name}:{i}") } else { format!("C08:{name}:prefix-value:{i}") };
+			// indicators that divide by an AVERAGED range (ADX: averaged true range, RVI: averaged high-low) and
+			// test that average for exact zero: over a window of exactly flat candles the true average is 0, the
+			// computed one is 0 or a rounding residue depending on the distant past
+			let flat_before = (1..=(t + 1).min(cs.len() - 1)).any(|j| cs[j].h == cs[j].l && cs[j].c == cs[j - 1].c);
+			let residue_ratio = matches!(name, "AverageDirectionalIndex" | "RelativeVigorIndex") && flat_before;
+			let vidya = vidya || residue_ratio;
+			let sig = if residue_ratio {
+				format!("C08:residue-ratio-on-flat-window:{name}:{i}")
+			} else if vidya {
+				format!("C08:vidya-on-rounding-noise:{name}:{i}")
+			} else {
+				format!("C08:{name}:prefix-value:{i}")
+			};
 			let f = Failure::new(sig, format!("{name} {cj}: after {k} leading copies of the first candle value #{i} at continuation step {t} is {:e}, without them {:e} (allowance {:e})", ol.values()[i], os.values()[i], tol));
 			if !vidya {
 				return Err(f);
